@@ -685,6 +685,21 @@ theorem scalar_kinds (op : Op) (a : Data ℚ) (c : ℚ) :
   constructor <;> intro k hk <;> simp only [List.mem_cons, List.not_mem_nil, or_false] at hk <;>
     rcases hk with rfl | rfl | rfl | rfl | rfl <;> rfl
 
+/-- **Foreign operands, both orders.**  An operand that is neither functional data nor a Python `int` /
+`float` (subclass) — list, tuple, `Fraction`, `Decimal`, complex, `None`, dict, string, array, NumPy scalar of
+another kind — is rejected with `TypeError` by every operator, on the right (`fd op x`) and, where Python hands
+it to the reflected method, on the left (`x op fd`): never broadcast. -/
+theorem foreign_rejected_both_orders (op : Op) (a : Data ℚ) (k : SKind) (c : ℚ) (hk : k.accepted = false) :
+    scalarop op a k c = .error .typeError ∧ rscalarop op a k c = .error .typeError := by
+  have h1 : scalarop op a k c = .error .typeError := by simp [scalarop, hk]
+  refine ⟨h1, ?_⟩
+  unfold rscalarop
+  split
+  · simp [scalarop, hk]
+  · rfl
+
+example : SKind.accepted .fraction = false ∧ SKind.accepted .pyList = false ∧ SKind.accepted .complex = false := by decide
+
 /-- **scalar_kinds / reflected side.**  Only `__rmul__` exists: `c * a = a * c`; every other
 reflected operator is a `TypeError`. -/
 theorem reflected_only_mul (op : Op) (a : Data ℚ) (k : SKind) (c : ℚ) :
